@@ -54,6 +54,16 @@ def scenarios(rep, tier, seed):
 
 def run(tier, seed):
     rep = H.Report(PID, tier, seed, "model_checking")
+    # the arithmetic core of the early exit, for every number of samples and all integer costs / weights (TLAPS)
+    import os, re, subprocess
+    pr = subprocess.run([os.path.join(H.VERIF, "bin", "prove"), "PredProofs"], capture_output=True, text=True, timeout=1200)
+    m_ = re.search(r"All (\d+) obligations proved", pr.stdout)
+    if pr.returncode == 0 and m_:
+        rep.cov["tlaps"] = {"module": "spec/proofs/PredProofs.tla", "obligations_proved": int(m_.group(1)), "theorems": ["EarlyExitSafe", "BetterOfferNeedsCheaperSample", "RemovedIsFinalMinPolicy", "RemovedIsFinalMaxPolicy"]}
+    elif pr.returncode == 2:
+        rep.skip("tlapm_not_available")
+    else:
+        raise H.MachineryError("TLAPS proof of PredProofs failed\n" + (pr.stdout + pr.stderr)[-1500:])
     F.design(rep, PID, tier)
     H.import_opfython()
     out, items = F.run_items(rep, scenarios(rep, tier, seed), PIDS, "c03")
